@@ -978,6 +978,9 @@ Box<ITV>::relation_with(const Constraint& c) const {
   if (Box_Helpers::extract_interval_constraint(c, c_num_vars, c_only_var)) {
     if (c_num_vars == 0) {
       // c is a trivial constraint.
+      if (c.is_equality() && c.inhomogeneous_term() != 0) {
+        return Poly_Con_Relation::is_disjoint();
+      }
       switch (sgn(c.inhomogeneous_term())) {
       case -1:
         return Poly_Con_Relation::is_disjoint();
